@@ -22,7 +22,7 @@ var atomicFuncs = map[string]bool{"AddUint64": true, "LoadUint64": true, "StoreU
 	"AddInt64": true, "LoadInt64": true, "StoreInt64": true, "AddUint32": true, "LoadUint32": true, "StoreUint32": true,
 	"AddInt32": true, "LoadInt32": true, "StoreInt32": true, "CompareAndSwapUint32": true}
 
-var typeMap = map[string]string{"sync.Mutex": "Mutex", "sync.RWMutex": "RWMutex", "sync.Map": "Map", "sync.Pool": "Pool", "atomic.Value": "Value"}
+var typeMap = map[string]string{"sync.Mutex": "Mutex", "sync.RWMutex": "RWMutex", "sync.Map": "Map", "sync.Pool": "Pool"}
 
 func src(fset *token.FileSet, n ast.Node) string {
 	var b bytes.Buffer
